@@ -11,10 +11,10 @@
 #include <sys/resource.h>
 #include <sys/wait.h>
 
-struct Faults { int open_fail = -1; int w1 = -1, w2 = -1; int persistent = -1; };
+struct Faults { int open_fail = -1; int w1 = -1, w2 = -1; int persistent = -1; int lock_fail = -1; };
 static std::string faults_str(const Faults& f)
 {
-    char b[96]; snprintf(b, sizeof b, "open_fail=%d,w1=%d,w2=%d,persistent=%d", f.open_fail, f.w1, f.w2, f.persistent); return b;
+    char b[128]; snprintf(b, sizeof b, "open_fail=%d,w1=%d,w2=%d,persistent=%d,lock_fail=%d", f.open_fail, f.w1, f.w2, f.persistent, f.lock_fail); return b;
 }
 static const char* KIND_NAME(int k) { switch (k) { case BasicDevice_Storage_Raw: return "raw"; case BasicDevice_Storage_Tiff: return "tiff"; case BasicDevice_Storage_Trash: return "trash"; case BasicDevice_Storage_SideBySideTiffJson: return "tiff-json"; } return "?"; }
 
@@ -27,6 +27,7 @@ static void child_run(int kind, const std::string& ops, const Faults& f, Outcome
     strcpy(out->verdict, "ok");
     ENV = Env();
     ENV.open_fail_at = f.open_fail;
+    ENV.lock_fail_at = f.lock_fail;
     ENV.persistent_from = f.persistent;
     int maxw = f.w2 > f.w1 ? f.w2 : f.w1;
     if (maxw >= 0) { ENV.write_plan.assign(maxw + 1, W_FULL); if (f.w1 >= 0) ENV.write_plan[f.w1] = W_EIO; if (f.w2 >= 0) ENV.write_plan[f.w2] = W_EIO; }
@@ -128,7 +129,7 @@ int main(int argc, char** argv)
         size_t bar = replay.find('|');
         std::string ops = replay.substr(0, bar);
         Faults f;
-        if (bar != std::string::npos) sscanf(replay.c_str() + bar + 1, "open_fail=%d,w1=%d,w2=%d,persistent=%d", &f.open_fail, &f.w1, &f.w2, &f.persistent);
+        if (bar != std::string::npos) sscanf(replay.c_str() + bar + 1, "open_fail=%d,w1=%d,w2=%d,persistent=%d,lock_fail=%d", &f.open_fail, &f.w1, &f.w2, &f.persistent, &f.lock_fail);
         Outcome o = run_forked(kind, ops, f);
         h_rmtree(g_scratch);
         printf("%s: open;%s;close with %s -> %s %s %s (%d pwrite calls, %d opens)\n", KIND_NAME(kind), ops.c_str(), faults_str(f).c_str(), o.verdict, o.clause, o.detail, o.writes, o.opens);
@@ -160,6 +161,9 @@ int main(int argc, char** argv)
         int W = base.writes, O = base.opens;
         for (int j = 0; j < O; ++j) { Faults f; f.open_fail = j; note(ops, f, run_forked(kind, ops, f)); ++with_faults; }
         if (O) { Faults f; f.open_fail = -2; note(ops, f, run_forked(kind, ops, f)); ++with_faults; }
+        // creating a file = open + lock: the lock is refused (another process or device holds the file) at the j-th create, or at all
+        for (int j = 0; j < O; ++j) { Faults f; f.lock_fail = j; note(ops, f, run_forked(kind, ops, f)); ++with_faults; }
+        if (O) { Faults f; f.lock_fail = -2; note(ops, f, run_forked(kind, ops, f)); ++with_faults; }
         for (int k = 0; k < W; ++k) {
             Faults f; f.w1 = k; note(ops, f, run_forked(kind, ops, f)); ++with_faults;
             Faults g; g.persistent = k; note(ops, g, run_forked(kind, ops, g)); ++with_faults;
